@@ -421,6 +421,7 @@ func runAdder(fs *flag.FlagSet, args []string) {
 		if family == "contend" || (family == "grow" && growPalette == 0) {
 			s.stick = 0 // (the newcomer palette keeps the drawn stickiness: an attach completes inside another thread's table replacement)
 		}
+		stale := (family == "grow" || family == "contend") && rng.Intn(3) == 0
 
 		var bodies []func()
 		var desc []string
@@ -428,6 +429,15 @@ func runAdder(fs *flag.FlagSet, args []string) {
 			bodies = append(bodies, r.body(i, th))
 			s.phase[i] = th.phase
 			desc = append(desc, fmt.Sprintf("t%d=%s", i, th))
+			if stale && th.phase == 1 && rng.Intn(2) == 0 {
+				// "stale snapshot" schedules: the thread is parked somewhere inside its operations (holding whatever it has read: the table,
+				// a slot, the lock) for a bounded time while the others go on, then runs alone for a while
+				s.parkAt[i] = 2 + rng.Intn(40)
+			}
+		}
+		if stale {
+			s.parkFor = 20 + rng.Intn(200)
+			s.soloMax = 10 + rng.Intn(40)
 		}
 		runf(run, "family=%s impl=%s ctor=%s maxcells=%d wild=%v %s", family, *impl, call, mc, r.wild, strings.Join(desc, " "))
 		if want := adderVariants[*impl].dyn; dyn != want {
